@@ -44,10 +44,16 @@ SOURCES = {
     "swzw3": "export function f(float3 p, float2 q) -> float3\n{\n  p.xy = q;\n  p.zx = q;\n  return p.zyx;\n}\n",
     # a source that imports a library which exists in two versions (the request says which one is on disk)
     "libdep": "import \"libc\";\nexport function f(int a) -> float\n{\n  return helper(a) + 1;\n}\n",
+    # signed and unsigned integer division / comparison for the wasm backend (the opcode choice of one must not leak into the other)
+    "wasm_u": "export function f(uint a, uint b) -> uint\n{\n  return a / b + a;\n}\nexport function h(uint a, uint b) -> int\n{\n  return a < b;\n}\n",
+    "wasm_s": "export function f(int a, int b) -> int\n{\n  return a / b + (a < b) + (a > 3);\n}\n",
+    # a source of more than 16 KiB and a short, deeply nested one (whatever its verdict, it is the same at every position)
+    "huge": "".join(f"function k{j}(int a, int b) -> int\n{{\n  int c = a * {j} + b;\n  return c - a / 2 + {j};\n}}\n" for j in range(260)) + "export function f(int a) -> int\n{\n  return k1(a, 2) + k259(a, 3);\n}\n",
+    "deep": "export function f(int a) -> int\n{\n  return " + "a + (" * 260 + "a + a" + ")" * 260 + ";\n}\n",
     "params_lb": "export function f(int level, int n) -> int\n{\n  int bias = n * 2;\n  bias += level;\n  return level + bias;\n}\n",
 }
 REQUESTS = [(n, {}) for n in SOURCES if n != "libdep"] + [("libdep", {"_lib": "v1"}), ("libdep", {"_lib": "v2"})] + [(n, {"optimize": True}) for n in ("plain", "struct_a", "struct_b", "loop", "imp")] + \
-    [("wasmable", {"wasm": True}), ("plain", {"wasm": True}), ("wasmable", {"wasm": True, "optimize": True}), ("private3", {"wasm": True})]
+    [("wasm_u", {"wasm": True}), ("wasm_s", {"wasm": True}), ("wasmable", {"wasm": True}), ("plain", {"wasm": True}), ("wasmable", {"wasm": True, "optimize": True}), ("private3", {"wasm": True})]
 
 
 def replay(job):
